@@ -33,9 +33,16 @@ const (
 	schedPath = modPath + "/verifsched"
 )
 
-var libPkgs = map[string]bool{
-	modPath + "/cvsserr": true, modPath + "/v2/metric": true, modPath + "/v3/metric": true,
-	modPath + "/v3/report": true, modPath + "/v3/report/names": true, modPath + "/v3/version": true,
+// libPath: the import paths of the instrumented packages (filled in main before any rewriting).
+var libPath = map[string]bool{}
+
+// isLib: every non-main package of the module is instrumented (so a helper package added by a
+// change gets scheduling points too); the virtual harness packages are not.
+func isLib(p *packages.Package) bool {
+	if p.Name == "main" || !(p.PkgPath == modPath || strings.HasPrefix(p.PkgPath, modPath+"/")) {
+		return false
+	}
+	return !strings.HasPrefix(p.PkgPath, schedPath) && !strings.HasPrefix(p.PkgPath, modPath+"/verifreg")
 }
 
 func die(format string, a ...any) {
@@ -63,10 +70,15 @@ func main() {
 		die("load: %v", err)
 	}
 	sort.Slice(pkgs, func(i, j int) bool { return pkgs[i].PkgPath < pkgs[j].PkgPath })
+	for _, p := range pkgs {
+		if isLib(p) {
+			libPath[p.PkgPath] = true
+		}
+	}
 	site, ranges, redirected, files, elided := 0, 0, 0, 0, 0
 	allYields := os.Getenv("VERIF_INSTR_ALL_YIELDS") != ""
 	for _, p := range pkgs {
-		if !libPkgs[p.PkgPath] {
+		if !isLib(p) {
 			continue
 		}
 		if len(p.Errors) > 0 {
@@ -410,7 +422,7 @@ func (fa *funcAnalysis) localExpr(e ast.Expr) bool {
 					ok = false
 				case *types.Func:
 					// a function of an instrumented package: it yields at its own statements
-					if o.Pkg() != nil && libPkgs[o.Pkg().Path()] {
+					if o.Pkg() != nil && libPath[o.Pkg().Path()] {
 						return true
 					}
 					ok = false
@@ -420,10 +432,10 @@ func (fa *funcAnalysis) localExpr(e ast.Expr) bool {
 			case *ast.SelectorExpr:
 				if o, isFn := fa.info.Uses[fn.Sel].(*types.Func); isFn && o.Pkg() != nil {
 					if sig, _ := o.Type().(*types.Signature); sig != nil && sig.Recv() == nil {
-						if pureFuncs[o.Pkg().Name()+"."+o.Name()] || libPkgs[o.Pkg().Path()] {
+						if pureFuncs[o.Pkg().Name()+"."+o.Name()] || libPath[o.Pkg().Path()] {
 							return true
 						}
-					} else if libPkgs[o.Pkg().Path()] {
+					} else if libPath[o.Pkg().Path()] {
 						// method of an instrumented type: yields inside; its receiver expression is
 						// judged by the other rules
 						return true
